@@ -644,8 +644,10 @@ func (l *loopState) notifySteps() { //nolint:gocognit
 			// We have a stage we can proceed with. Let's provide it with input.
 			// Tries to match the schema
 			if _, err := nodeItem.DataSchema.Unserialize(untypedInputData); err != nil {
-				l.logger.Errorf("Bug: schema evaluation resulted in invalid data for %s (%v)", nodeID, err)
-				l.reportError(fmt.Errorf("bug: schema evaluation resulted in invalid data for %s (%w)", nodeID, err))
+				// The types were checked when the workflow was prepared. Whether a value respects the limits of its
+				// schema, such as a minimum, shows only now. That is a fault of the data, not of the engine.
+				l.logger.Errorf("The data evaluated for %s does not match its schema (%v)", nodeID, err)
+				l.reportError(fmt.Errorf("the data evaluated for %s does not match its schema (%w)", nodeID, err))
 				l.cancel()
 				return
 			}
